@@ -301,6 +301,8 @@ class C19(PropBase):
             # platform sweep: every processor_architecture value, power-of-two / region-adjacent crash addresses
             tag = "platform"
             arch = rng.choice(ARCHES)
+            if rng.chance(1, 4):
+                os_, kind, code, nparams, info0, flags = rng.choice([2, 3]), 0, rng.choice([1, 11, 6]), 0, 0, rng.choice([1, 2, 13])
         elif scen == 1 and (bid is not None and bid != 16 or cls in ("callreg", "jmpreg")):
             tag = "null_base" if dec else "null_target"
             if dec:
@@ -316,11 +318,18 @@ class C19(PropBase):
                 ctx[bid] = rng.below(1 << 47) | 1
         elif scen in (3, 4):
             tag = "gpf"
-            if rng.chance(1, 2):
+            which = rng.below(7)
+            if which < 3:
                 os_, kind, code, nparams, info0, flags = 0, 0, 0xC0000005, rng.choice([2, 2, 2, 1, 3]), rng.choice([0, 0, 0, 1, 8]), 0
-            else:
+            elif which < 5:
                 os_, kind = 1, rng.below(2)
                 code, nparams, info0, flags = rng.choice([11, 7, 11, 7, 4]), 0, 0, rng.choice([0x80, 0x80, 0x80, 0, 1])
+            elif which == 5:
+                # macOS: EXC_BAD_ACCESS / EXC_I386_GPFLT (13), address 0
+                os_, kind, code, nparams, info0, flags = 2, 0, rng.choice([1, 1, 1, 2]), 0, 0, rng.choice([13, 13, 13, 1, 2])
+            else:
+                # an OS without a GPF shape
+                os_, kind, code, nparams, info0, flags = 3, 0, rng.choice([11, 1, 0xC0000005]), 2, 0, rng.choice([0x80, 13, 0])
             if rng.chance(1, 6):
                 arch = rng.choice([0x8002, 0x8004, 12, 0])
         centre = operand_value(ctx, dec) if dec else (ctx[ipv] if ipk == 2 else ctx[7])
@@ -388,6 +397,8 @@ class C19(PropBase):
         if tag == "gpf":
             if os_ == 0:
                 info1, excaddr = rng.choice([U64, U64, U64, U64 - 1, 0]), ctx[16]
+            elif os_ == 3:
+                info1, excaddr = U64, rng.choice([0, U64])
             else:
                 info1, excaddr = 0, rng.choice([0, 0, 0, 1, centre])
         elif tag == "platform":
